@@ -251,10 +251,10 @@ def check_error_rate(case):
 
 SUBS = [
     Sub("parity_gamma", check_parity, strategy=lambda: MC.parity_case(), quick=1500, thorough=40000, shards=16,
-        floors={"nt": 0.3, "control": 0.246, "ratio<1": 0.2, "missing_group": 0.15, "soft": 0.25,
+        floors={"nt": 0.3, "control": 0.206, "ratio<1": 0.162, "missing_group": 0.15, "soft": 0.226,
                 "control+label_event": 0.08, "mf_crosscheck": 0.01}),
     Sub("bgl_gamma", check_bgl, strategy=lambda: MC.loss_case(), quick=400, thorough=8000, shards=8,
-        floors={"nt": 0.492, "clipped": 0.3}),
+        floors={"nt": 0.402, "clipped": 0.3}),
     Sub("error_rate_gamma", check_error_rate, strategy=lambda: MC.error_rate_case(), quick=400, thorough=8000,
-        shards=8, floors={"nt": 0.3, "asymmetric_costs": 0.287, "soft": 0.2, "default_costs": 0.1}),
+        shards=8, floors={"nt": 0.282, "asymmetric_costs": 0.213, "soft": 0.174, "default_costs": 0.1}),
 ]
